@@ -166,8 +166,16 @@ def fixenv():
 SOH = b'\x01'
 
 
-def fix_frame(mtype, begin=b'FIX.4.4', seq=1):
-    body = b'35=' + mtype + SOH + b'34=' + str(seq).encode() + SOH + b'49=SERVER' + SOH + b'56=CLIENT' + SOH + b'52=20240101-00:00:00' + SOH
+FIX_REQUIRED = [34, 49, 56, 52]            # header fields the suite's dictionary marks required (besides the framing fields 8, 9, 35)
+FIX_OPTIONAL = [[50, 'SUB'], [57, 'TSUB'], [553, 'user']]      # optional header / body fields of its logon message
+FIX_UNKNOWN = [[9999, 'x'], [20001, '1'], [58, 'welcome']]      # tags the dictionary does not know at all
+
+
+def fix_frame(mtype, begin=b'FIX.4.4', seq=1, omit=(), extra=()):
+    """a well-formed frame (BodyLength and CheckSum right); `omit`: tags left out, `extra`: (tag, value) pairs appended"""
+    flds = [(34, str(seq)), (49, 'SERVER'), (56, 'CLIENT'), (52, '20240101-00:00:00')]
+    body = b'35=' + mtype + SOH + b''.join(str(t).encode() + b'=' + v.encode() + SOH for t, v in flds if t not in omit)
+    body += b''.join(str(t).encode() + b'=' + str(v).encode() + SOH for t, v in extra)
     head = b'8=' + begin + SOH + b'9=' + str(len(body)).encode() + SOH
     data = head + body
     return data + b'10=' + str(sum(data) % 256).rjust(3, '0').encode() + SOH
@@ -187,7 +195,7 @@ def reply_bytes(sc):
     if sc['kind'] == 'fix':
         begin = FIX_BEGIN[p['fixver']]
         if r[0] == 'accept':
-            return fix_frame(b'L', begin=begin, seq=p['acc_seq']), True, True
+            return fix_frame(b'L', begin=begin, seq=p['acc_seq'], omit=sc.get('fix_omit', ()), extra=sc.get('fix_extra', ())), True, True
         if r[0] in ('reject', 'debug', 'seq', 'unseq', 'eos'):
             return fix_frame(b'N', begin=begin), True, False          # any message other than the logon response
         if r[0] == 'hb':
@@ -226,11 +234,36 @@ def data_frame(sc, n):
     return soup.SequencedData(payload(n)).to_bytes()[1]
 
 
+def pre_frame(sc, t):
+    if sc['kind'] == 'fix':
+        return fix_frame(b'0' if t == 'hb' else b'N', begin=FIX_BEGIN[P(sc)['fixver']])
+    from nasdaq_protocols import soup
+    return (soup.ServerHeartbeat() if t == 'hb' else soup.Debug('dbg')).to_bytes()[1]
+
+
+def logon_deviates(sc):
+    """FIX: the logon reply is of the right type and well-formed as a frame, but lacks fields the dictionary requires or carries tags
+    the dictionary does not know — whether that is still "an acceptance" is the library's to decide, either way it must be one of
+    the two outcomes in full"""
+    known = {t for t, _ in FIX_OPTIONAL}
+    return sc['kind'] == 'fix' and (bool(sc.get('fix_omit')) or any(t not in known for t, _ in sc.get('fix_extra', ())))
+
+
 def stream_of(sc):
     """(bytes up to the end of the peer's answer, whole stream, is there an answer, is it the acceptance); when the reply proper is
     no answer (a heartbeat, nothing) the first data frame that follows is what `login()` gets as its reply: not an acceptance"""
     rb, complete, accept = reply_bytes(sc)
     frames = [data_frame(sc, n) for n in sc.get('tail', [])]
+    pre = sc.get('pre', [])
+    if pre:
+        # what the server says BEFORE its reply (its heartbeat timer fired between accepting the connection and answering; a debug
+        # packet).  A heartbeat is not an answer (both readers consume heartbeats without handing them on); the first frame that is
+        # one — a debug packet, FIX: any other message — is the reply
+        pb = [pre_frame(sc, t) for t in pre]
+        first = next((i for i, t in enumerate(pre) if t != 'hb'), None)
+        if first is not None:
+            return b''.join(pb[:first + 1]), b''.join(pb) + rb + b''.join(frames), True, False
+        rb = b''.join(pb) + rb
     if not complete and frames:
         return rb + frames[0], rb + b''.join(frames), True, False
     return rb, rb + b''.join(frames), complete, accept
@@ -570,9 +603,10 @@ def oracle(sc, out):
         allowed = {'timeout'}
     elif reply_delivered and accept:
         allowed = {'session'} if eof is None else {'session', 'refused'}
-        if seq_mismatch(sc):
+        if seq_mismatch(sc) or logon_deviates(sc):
             # accepted, but not at the position asked for: adopting it (what the unchanged connectors do, C10) and refusing it are
-            # both within the statement — each with everything the statement attaches to that outcome
+            # both within the statement — each with everything the statement attaches to that outcome.  Likewise a FIX logon reply
+            # that lacks required fields / carries unknown tags: a session or a refusal, nothing else (no ValueError, no KeyError)
             allowed = {'session', 'refused'}
     elif reply_delivered and not accept:
         allowed = {'refused'}
@@ -713,6 +747,42 @@ def enumerate_scenarios(kind, rng, full):
     out.append(dict(base, connect='refuse', reply=['none']))
     out.append(dict(base, connect='hang', reply=['none'], cancel=['before', 2]))
     out.append(dict(base, connect='hang', reply=['none'], cancel=['timeout', 3]))
+    # 7. the server says something BEFORE its reply: heartbeat(s) (its timer fired between accepting the connection and answering), a
+    # debug packet — the concatenation cut at EVERY byte offset ("all segmentations/timings of the reply"), three gap styles; an
+    # accepted login whose bytes all arrive must end as a session however TCP cut them
+    for pre in ((['hb'], ['hb', 'hb'], ['debug'], ['hb', 'debug']) if kind != 'fix' else (['hb'], ['debug'])):
+        for mode, tail in (('callback', []), ('pull', [1])) if pre[-1] == 'hb' and kind != 'fix' else (('callback', []),):
+            sc0 = dict(base, mode=mode, tail=tail, pre=pre)
+            n = len(stream_of(sc0)[1])
+            out.append(dict(sc0))
+            for x in range(1, n):
+                for g in ((0, 2, -1) if full else (rng.choice([0, 2, -1]),)):
+                    out.append(dict(sc0, cuts=[x], gaps=[g]))
+            out.append(dict(sc0, cuts=list(range(1, n)), gaps=[-1]))
+        out.append(dict(base, pre=pre, eof=rng.randint(1, 30), eof_gap=-1))
+        out.append(dict(base, pre=pre, cancel=['after', 1, rng.randint(0, 5)]))
+    # 8. FIX: logon replies of the right type with every subset of the required header fields missing, with optional fields present,
+    # with tags the dictionary does not know (all well-formed frames: BodyLength and CheckSum right)
+    if kind == 'fix':
+        import itertools
+        for r_ in range(len(FIX_REQUIRED) + 1):
+            for omit in itertools.combinations(FIX_REQUIRED, r_):
+                opt = [f for f in FIX_OPTIONAL if rng.random() < 0.4]
+                unk = [rng.choice(FIX_UNKNOWN)] if rng.random() < 0.3 else []
+                sc0 = dict(base, fix_omit=list(omit), mode=rng.choice(['callback', 'pull']))
+                out.append(dict(sc0))
+                out.append(dict(sc0, fix_extra=opt + unk, tail=[1] if rng.random() < 0.5 else []))
+                if omit:
+                    n = len(stream_of(sc0)[1])
+                    out.append(dict(sc0, cuts=[rng.randint(1, n - 1)], gaps=[-1]))
+        for r_ in range(1, len(FIX_OPTIONAL) + 1):
+            for opt in itertools.combinations(FIX_OPTIONAL, r_):
+                out.append(dict(base, fix_extra=[list(f) for f in opt]))
+        for unk in FIX_UNKNOWN:
+            out.append(dict(base, fix_extra=[unk]))
+            out.append(dict(base, fix_extra=[unk] + FIX_OPTIONAL[:1], fixver=rng.choice([42, 50])))
+        out.append(dict(base, fix_omit=[52], eof=rng.randint(1, 40), eof_gap=-1))
+        out.append(dict(base, fix_omit=[56], cancel=['after', 1, rng.randint(0, 5)]))
     # 6. itch / ouch / sqf: the connector's default session (no session_factory)
     if kind in ('itch', 'ouch', 'sqf'):
         for mode in ('callback', 'pull'):
@@ -821,8 +891,15 @@ def random_scenario(rng, kinds):
             sc['seq'] = seq
         req = seq if seq is not None else (1 if kind == 'soup' else 0)
         sc['acc_seq'] = rng.choice(accepted_at(req) + [req if req else 1] * 3)
+    if rng.random() < 0.15:
+        sc['pre'] = rng.choice([['hb'], ['hb'], ['hb', 'hb'], ['debug'], ['hb', 'hb', 'hb']])
+    if kind == 'fix' and sc['reply'] == ['accept'] and rng.random() < 0.4:
+        sc['fix_omit'] = [t for t in FIX_REQUIRED if rng.random() < 0.3]
+        sc['fix_extra'] = [f for f in FIX_OPTIONAL + FIX_UNKNOWN if rng.random() < 0.2]
     n = len(stream_of(sc)[1])
     sc['cuts'] = sorted(set(rng.randint(1, max(1, n)) for _ in range(rng.choice([0, 1, 2, 4]))))
+    if sc.get('pre') and rng.random() < 0.5:
+        sc['cuts'] = sorted(set(sc['cuts']) | {max(1, n - rng.randint(1, 4))})
     c = rng.random()
     if c < 0.3:
         sc['eof'] = rng.randint(0, n)
@@ -847,7 +924,8 @@ def shrink(sc, what):
     for field, val in (('tail', []), ('cuts', []), ('gaps', [0]), ('delay', 0), ('eof_turns', 0), ('eof_gap', 0), ('mode', 'callback'),
                        ('user', _ABSENT), ('pw', _ABSENT), ('sid', _ABSENT), ('acc_sid', _ABSENT), ('chb', _ABSENT), ('shb', _ABSENT),
                        ('on_close', _ABSENT), ('ctimeout', _ABSENT), ('factory', _ABSENT), ('soup_factory', _ABSENT), ('fixver', _ABSENT),
-                       ('acc_seq', _ABSENT), ('seq', _ABSENT), ('seq', 5), ('acc_seq', 7)):
+                       ('acc_seq', _ABSENT), ('seq', _ABSENT), ('seq', 5), ('acc_seq', 7), ('fix_extra', _ABSENT), ('fix_omit', _ABSENT),
+                       ('pre', _ABSENT), ('pre', ['hb'])):
         if (field not in cur) if val is _ABSENT else (cur.get(field) in (None, val)):
             continue
         cand = dict(cur)
@@ -878,7 +956,8 @@ def run_connectors(ctx):
         # keep the quick tier quick: all of the fully enumerated connector, every third scenario of the others
         # (the hand-over windows — disconnect / cancellation a few loop turns after the reply — are never sampled away)
         cases = [sc for i, sc in enumerate(cases)
-                 if sc['kind'] == pick or i % 3 == ctx.seed % 3 or sc.get('eof_turns') or (sc.get('cancel') or [''])[0] == 'after']
+                 if sc['kind'] == pick or i % 3 == ctx.seed % 3 or sc.get('eof_turns') or (sc.get('cancel') or [''])[0] == 'after'
+                 or sc.get('pre') or 'fix_omit' in sc or 'fix_extra' in sc]
     # the connector's own parameters (requested sequence x accepted sequence x ...): small, never sampled away
     for k in kinds:
         cases.extend(param_scenarios(k, random.Random(rng.random()), thorough=not quick))
@@ -910,6 +989,11 @@ def run_connectors(ctx):
                 ctx.count('connector-param:' + key)
         if sc.get('factory') is False:
             ctx.count('connector-param:default-session-class')
+        if sc.get('pre'):
+            ctx.count('connector-before-reply:' + '+'.join(sc['pre']))
+        if sc.get('fix_omit') or sc.get('fix_extra'):
+            ctx.count('connector-fix-logon:' + ('required-missing' if sc.get('fix_omit') else 'complete')
+                      + ('+unknown-tag' if logon_deviates(dict(sc, fix_omit=[])) else '') + ('+optional' if sc.get('fix_extra') else ''))
         v = oracle(sc, out)
         if v:
             n_bad += 1
